@@ -268,8 +268,108 @@ def fqn_monitor(ctx, uberjob):
                  {"index": bad[0], "reported": bad[1]})
 
 
+def extra(ctx, uberjob):
+    """(a) the account stays exact under forced interleavings of the worker threads (join-heavy plans, real uberjob.run under the
+    deterministic scheduler); (b) a Progress object (composite_progress(...), a list) reused for several runs gives every run
+    freshly created member observers, each entered once, notified only between its enter and exit, exited once."""
+    import plansched
+    from uberjob.progress import Progress, ProgressObserver, composite_progress
+    rng = ctx.rng
+
+    class Rec(ProgressObserver):
+        def __init__(self, sink):
+            self.seq, self.lock = [], threading.Lock()
+            sink.append(self)
+
+        def _n(self, *e):
+            with self.lock:
+                self.seq.append(e)
+
+        def __enter__(self):
+            self._n("enter", None, None)
+
+        def __exit__(self, *a):
+            self._n("exit", None, None)
+
+        def increment_total(self, *, section, scope, amount):
+            self._n("total", section, (scope, amount))
+
+        def increment_running(self, *, section, scope):
+            self._n("running", section, scope)
+
+        def increment_completed(self, *, section, scope):
+            self._n("completed", section, scope)
+
+        def increment_failed(self, *, section, scope, exception):
+            self._n("failed", section, scope)
+
+    class RecProgress(Progress):
+        def __init__(self):
+            self.made = []
+
+        def observer(self):
+            return Rec(self.made)
+
+    # (a)
+    ctl = plansched.Controlled()
+    with ctl:
+        for name, shape in plansched.SHAPES.items():
+            for si in range(ctx.n(25, 250)):
+                plan, nodes = uberjob.Plan(), {}
+                for nm, args in shape:
+                    with plan.scope(nm[0]):
+                        nodes[nm] = plan.call(lambda *a: 0, *[nodes[a] for a in args])
+                prog = RecProgress()
+                ctl.set(plansched.stress_chooser(rng, si))
+                workers = rng.choice([2, 3, 4])
+                try:
+                    uberjob.run(plan, output=nodes[shape[-1][0]], max_workers=workers, progress=prog)
+                    outcome = "returned"
+                except BaseException as e:      # noqa
+                    outcome = "raised %s: %s" % (type(e).__name__, str(e)[:100])
+                r = ctl.last
+                seq = prog.made[0].seq if prog.made else []
+                defect = py_wf(seq)
+                completed = sum(1 for e in seq if e[0] == "completed")
+                ctx.case(("c15-timing", name, tuple(r.sched.decisions[:300]) if r else si), nontrivial=True)
+                if defect or outcome != "returned" or completed != len(shape):
+                    ctx.fail("timing:account", "under a forced interleaving of %d workers the observer's account is not exact: %s; run %s; %d completed of %d calls"
+                             % (workers, defect or "well-formed", outcome, completed, len(shape)),
+                             {"shape": name, "max_workers": workers, "decisions": r.sched.decisions[:4000] if r else None,
+                              "notifications": [repr(e) for e in seq[:80]]})
+    # (b)
+    for form in ("composite", "nested-composite", "list"):
+        members = [RecProgress(), RecProgress()]
+        if form == "composite":
+            prog = composite_progress(*members)
+        elif form == "nested-composite":
+            prog = composite_progress(composite_progress(members[0]), members[1])
+        else:
+            prog = list(members)
+        plan = uberjob.Plan()
+        x = plan.call(lambda: 1)
+        y = plan.call(lambda v: v + 1, x)
+        for k in range(3):
+            uberjob.run(plan, output=y, progress=prog, max_workers=1)
+            ctx.case(("c15-reuse", form, k))
+            for mi, m in enumerate(members):
+                bad = None
+                if len(m.made) != k + 1:
+                    bad = "%d observers were created by member %d's Progress for %d runs" % (len(m.made), mi, k + 1)
+                else:
+                    d = py_wf(m.made[k].seq)
+                    if d:
+                        bad = "run %d, member %d: %s" % (k + 1, mi, d)
+                    elif sum(1 for e in m.made[k].seq if e[0] == "completed") != 2:
+                        bad = "run %d, member %d saw %d completed for 2 calls" % (k + 1, mi, sum(1 for e in m.made[k].seq if e[0] == "completed"))
+                if bad:
+                    ctx.fail("reuse:" + form, "a Progress (%s) reused for several runs: %s" % (form, bad), {"form": form, "run": k + 1})
+                    break
+
+
 def run(ctx):
     fqn_monitor(ctx, core.use_repo())
+    extra(ctx, core.use_repo())
     uberjob = core.use_repo()
     import uberjob.progress  # noqa
     from uberjob._util import fully_qualified_name
